@@ -6,7 +6,9 @@
    move the events  [call]  [obs of the state after the move]  [ret].
 
    Events
-     reset    (nw, pre)                start of a segment; pre: wakers 1..nw already attached
+     reset    (nw, pre, preq)          start of a segment; pre: wakers 1..nw already attached; wakers 1..preq
+                                       already asserted (by completed Asserts) and queued
+     stuck    (p, op, state)           watchdog: the call of goroutine p did not come back; state: spinning | parked
      call     (p, op [, w] [, block])  p = 0 the sleeper goroutine (AddWaker w / Fetch block / Done),
                                        p >= 1 a waker goroutine (Assert w / Clear w)
      ret      (p, op [, ok] [, id])    Clear: ok;  Fetch: id (= waker number) and ok
@@ -37,12 +39,13 @@
        delivers only to the new sleeper, one notification per waker. *)
 EXTENDS TraceIO, SleepMon
 tvars == <<l, mvars>>
-TInit == l = 1 /\ MStart(0, FALSE) /\ HWInit
+TInit == l = 1 /\ MStart(0, FALSE, 0) /\ HWInit
 Reset == IsEvent("reset") /\ MReset(Ev)
 Call == IsEvent("call") /\ MCall(Ev)
 Obs == IsEvent("obs") /\ MObs(Ev)
 Ret == IsEvent("ret") /\ MRet(Ev)
 Reattach == IsEvent("reattach") /\ MReattach(Ev)
-TNext == Reset \/ Call \/ Ret \/ Obs \/ Reattach
+Stuck == IsEvent("stuck") /\ MStuck(Ev)
+TNext == Reset \/ Call \/ Ret \/ Obs \/ Reattach \/ Stuck
 TSpec == TInit /\ [][TNext]_tvars
 ====
